@@ -184,6 +184,7 @@ def run_rules(ctx, res):
     names = sorted((c.rpath or "?").rsplit("::", 1)[-1] for (c, ai) in uses)
     res.inst(SRC, "generate-uses-of-src", g.where, True, "calls %s, closures %d" % (names, len(captures)))
     ok_calls = True
+    n_conv = 0
     for (c, ai) in uses:
         tgt = mir.fns.get(c.rkey) if c.local else None
         role = None
@@ -191,6 +192,9 @@ def run_rules(ctx, res):
             role = "tokenizer"
         elif tgt is not None and tgt.output and tgt.output["s"].endswith("RustSrc"):
             role = "emitter"
+        elif tgt is not None and tgt.output and tgt.output["s"].endswith("KikiErr") and not captures and n_conv == 0:
+            role = "error-span conversion"  # the same conversion called without a closure (hand-written match instead of map_err)
+            n_conv += 1
         if role is None:
             ok_calls = False
             res.violate(SRC, "src-use|%s" % (c.rpath or "?"), c.where, "generate hands the raw source text to `%s` (allowed: the tokenizer, the emitter's digest field, the error-span conversion)" % c.rpath)
